@@ -10,6 +10,7 @@ from typing import TYPE_CHECKING
 
 from .exceptions import PestParsingError
 from .grammar import parse
+from .grammar.exceptions import PestGrammarError
 from .grammar.codegen.generate import generate_module
 from .grammar.optimizer import DEFAULT_OPTIMIZER
 from .grammar.rule import BuiltInRule
@@ -97,7 +98,10 @@ class Parser:
         # - validate_whitespace_comment
         # - validate_tag_silent_rules
 
-        return cls(rules, doc, optimizer=optimizer, debug=debug)
+        try:
+            return cls(rules, doc, optimizer=optimizer, debug=debug)
+        except RecursionError as err:
+            raise PestGrammarError("the grammar is nested too deeply") from err
 
     def __str__(self) -> str:
         doc = "".join(f"//! {line}".rstrip() + "\n" for line in self.doc) + "\n" if self.doc else ""
